@@ -240,7 +240,7 @@ func (r *rig) tell(m interface{}) {
 }
 
 // reply sends m to the syncer after d; honest marks replies whose lateness would disturb timing.
-func (r *rig) reply(s *session, d time.Duration, m interface{}, kind string) {
+func (r *rig) reply(s *session, d time.Duration, m interface{}, kind string, more ...interface{}) {
 	atomic.AddInt64(&r.pending, 1)
 	t0 := time.Now()
 	fire := func() {
@@ -250,8 +250,14 @@ func (r *rig) reply(s *session, d time.Duration, m interface{}, kind string) {
 			s.maxLag = lag
 		}
 		r.recordIn(s, kind, m)
+		for _, x := range more {
+			r.recordIn(s, kind+"(duplicate)", x)
+		}
 		r.mu.Unlock()
 		r.tell(m)
+		for _, x := range more {
+			r.tell(x)
+		}
 		atomic.AddInt64(&r.activity, 1)
 		atomic.AddInt64(&r.pending, -1)
 	}
@@ -537,7 +543,14 @@ func (r *rig) onGetSyncAncestor(s *session, m *message.GetSyncAncestor) {
 		s.lightNil = true
 	}
 	d := r.baseDelay(s, "anc", 0)
-	send := func(a *types.BlockInfo, d time.Duration) {
+	if d < 3*time.Millisecond {
+		d = 3 * time.Millisecond // an instant reply can overtake the finder's select and is then dropped by the syncer
+	}
+	send := func(a *types.BlockInfo, d time.Duration, dup ...bool) {
+		if len(dup) > 0 {
+			r.reply(s, d, &message.GetSyncAncestorRsp{Seq: m.Seq, Ancestor: a}, "GetSyncAncestorRsp", &message.GetSyncAncestorRsp{Seq: m.Seq, Ancestor: a})
+			return
+		}
 		r.reply(s, d, &message.GetSyncAncestorRsp{Seq: m.Seq, Ancestor: a}, "GetSyncAncestorRsp")
 	}
 	switch code {
@@ -549,8 +562,7 @@ func (r *rig) onGetSyncAncestor(s *session, m *message.GetSyncAncestor) {
 		send(truth, lateDelay)
 	case "silent":
 	case "dup":
-		send(truth, d)
-		send(truth, d+2*time.Millisecond)
+		send(truth, d, true)
 	case "nil": // error status from the remote peer => Ancestor nil
 		s.finderLied = s.finderLied || truth != nil
 		send(nil, d)
@@ -595,8 +607,7 @@ func (r *rig) onGetHashByNo(s *session, m *message.GetHashByNo) {
 	case "silent":
 	case "dup":
 		c := *truth
-		send(truth, d)
-		send(&c, d+2*time.Millisecond)
+		r.reply(s, d, truth, "GetHashByNoRsp", &c)
 	case "err":
 		send(&message.GetHashByNoRsp{Seq: m.Seq, Err: message.RemotePeerFailError}, d)
 	case "wrong":
@@ -682,8 +693,7 @@ func (r *rig) onGetHashes(s *session, m *message.GetHashes) {
 	case "silent":
 	case "dup":
 		c := *truth
-		send(truth, d)
-		send(&c, d+2*time.Millisecond)
+		r.reply(s, d, truth, "GetHashesRsp", &c)
 	case "err":
 		send(&message.GetHashesRsp{Seq: m.Seq, PrevInfo: m.PrevInfo, Err: message.RemotePeerFailError}, d)
 	case "few":
@@ -799,8 +809,7 @@ func (r *rig) onGetBlockChunks(s *session, m *message.GetBlockChunks) {
 		send(&message.GetBlockChunksRsp{Seq: m.Seq, ToWhom: m.ToWhom, Err: message.RemotePeerFailError}, d)
 	case "dup":
 		c := *truth
-		send(truth, d)
-		send(&c, d+3*time.Millisecond)
+		r.reply(s, d, truth, "GetBlockChunksRsp", &c)
 	case "empty":
 		send(mkRsp(nil), d)
 	case "few":
@@ -880,8 +889,7 @@ func (r *rig) onAddBlock(s *session, m *message.AddBlock) {
 		send(rsp, slowDelay)
 	case "dup":
 		c := *rsp
-		send(rsp, 0)
-		send(&c, 2*time.Millisecond)
+		r.reply(s, 0, rsp, "AddBlockRsp", &c)
 	case "wronghash":
 		send(&message.AddBlockRsp{BlockNo: rsp.BlockNo, BlockHash: bytes.Repeat([]byte{0xab}, 32), Err: err}, 0)
 	}
@@ -903,6 +911,13 @@ func (r *rig) poison(s *session, m interface{}) []interface{} {
 		s.poisoned[kind]++
 		s.events = append(s.events, event{Step: s.outSteps, Dir: "in", Kind: "STALE " + kind, Seq: old, Info: describe(x)})
 		out = append(out, x)
+	}
+	if r.sc.Class == "stale-addrsp" {
+		// a chain-service answer to the previous session's last AddBlock arrives now (it has no sequence number)
+		if _, ok := m.(*message.GetBlockChunks); ok && s.poisoned["AddBlockRsp(no seq)"] == 0 {
+			add("AddBlockRsp(no seq)", &message.AddBlockRsp{BlockNo: 1, BlockHash: s.remote.hashAt(1)})
+		}
+		return out
 	}
 	sel := func(label string, mod uint64) bool { return h64(r.sc.Seed, "poison", label, s.outSteps)%mod == 0 }
 	switch x := m.(type) {
